@@ -1,0 +1,15 @@
+//! Verification hooks (feature `verif-hooks`, off by default).
+//!
+//! Read-only accessors and re-exports used by the external verification harness.
+//! Nothing in here is compiled unless the feature is enabled.
+
+pub use crate::alloc::{AllocError, AllocProxy, Allocator, CaoLangAllocator, SysAllocator};
+
+/// `(opcode, Debug name, span)` for every opcode the `Instruction` enum accepts.
+pub fn instruction_table() -> Vec<(u8, String, usize)> {
+    use std::convert::TryFrom;
+    (0..=255u8)
+        .filter_map(|b| crate::instruction::Instruction::try_from(b).ok())
+        .map(|i| (i as u8, format!("{i:?}"), i.span()))
+        .collect()
+}
